@@ -90,3 +90,64 @@ Definition ex_tj : value :=
          (10, [VS (SN 18446744073709551615); VS (SN 0)]);
          (100, [VS (SN 9)]) ]
        [xa0; x06; x01].
+
+(* ---- a table with the structural well-known types (the proved part of C20):
+   0 Empty   1 verif.T   2 verif.KW   3 Value   4 Struct   5 ListValue   6 Int64Value ---- *)
+Definition ex_kw_md : mdesc :=
+  [ mkF 1 (KS SkEnum) COpt None false false false;       (* optional NullValue opt_null *)
+    mkF 2 (KS SkInt32) COpt None false false false;
+    mkF 3 (KMsg 3) COpt None false false false;          (* optional Value opt_value *)
+    mkF 4 (KMsg 4) COpt None false false false;          (* Struct *)
+    mkF 5 (KMsg 5) COpt None false false false;          (* ListValue *)
+    mkF 6 (KMsg 6) COpt None false false false;          (* Int64Value *)
+    mkF 7 (KMsg 3) CRep None false false false ].        (* repeated Value *)
+Definition ex_value_md : mdesc :=
+  [ mkF 1 (KS SkEnum) COpt (Some 0) false false false;
+    mkF 2 (KS SkDouble) COpt (Some 0) false false false;
+    mkF 3 (KS SkString) COpt (Some 0) true false false;
+    mkF 4 (KS SkBool) COpt (Some 0) false false false;
+    mkF 5 (KMsg 4) COpt (Some 0) false false false;
+    mkF 6 (KMsg 5) COpt (Some 0) false false false ].
+Definition ex_struct_md : mdesc := [ mkF 1 (KMsg 3) (CMap SkString true 0) None false false false ].
+Definition ex_listvalue_md : mdesc := [ mkF 1 (KMsg 3) CRep None false false false ].
+Definition ex_int64value_md : mdesc := [ mkF 1 (KS SkInt64) CImp None false false false ].
+
+Definition ex_schema_w : schema :=
+  [[]; ex_t_md; ex_kw_md; ex_value_md; ex_struct_md; ex_listvalue_md; ex_int64value_md].
+
+Definition ex_names_w : names :=
+  mkNM
+    [ mkMN (bs "google.protobuf.Empty") 9 [];
+      nth 1 (nm_msgs ex_names) mn_default;
+      mkMN (bs "verif.KW") 0
+        [ mkFN (bs "opt_null") (bs "optNull") false (Some 1%nat); mkFN (bs "n") (bs "n") false None;
+          mkFN (bs "opt_value") (bs "optValue") false None; mkFN (bs "st") (bs "st") false None;
+          mkFN (bs "lv") (bs "lv") false None; mkFN (bs "w") (bs "w") false None; mkFN (bs "rv") (bs "rv") false None ];
+      mkMN (bs "google.protobuf.Value") 7
+        [ mkFN (bs "null_value") (bs "nullValue") true (Some 1%nat); mkFN (bs "number_value") (bs "numberValue") true None;
+          mkFN (bs "string_value") (bs "stringValue") true None; mkFN (bs "bool_value") (bs "boolValue") true None;
+          mkFN (bs "struct_value") (bs "structValue") true None; mkFN (bs "list_value") (bs "listValue") true None ];
+      mkMN (bs "google.protobuf.Struct") 5 [ mkFN (bs "fields") (bs "fields") false None ];
+      mkMN (bs "google.protobuf.ListValue") 6 [ mkFN (bs "values") (bs "values") false None ];
+      mkMN (bs "google.protobuf.Int64Value") 4 [ mkFN (bs "value") (bs "value") false None ] ]
+    (nm_enums ex_names).
+
+Definition v_null : value := VMsg [(1, [VS (SZ 0)])] [].
+Definition v_num (bits : N) : value := VMsg [(2, [VS (SN bits)])] [].
+Definition v_str (s : string) : value := VMsg [(3, [VS (SBy (bs s))])] [].
+Definition v_bool (b : bool) : value := VMsg [(4, [VS (SB b)])] [].
+Definition v_list (l : list value) : value :=
+  VMsg [(6, [VMsg (match l with [] => [] | _ => [(1, l)] end) []])] [].
+
+Definition ex_kw : value :=
+  VMsg [ (1, [VS (SZ 0)]);
+         (3, [v_num 4609434218613702656]);                                  (* 1.5 *)
+         (4, [VMsg [(1, [VEntry (SBy (bs "a")) v_null;
+                         VEntry (SBy (bs "b")) (v_list [v_bool true; v_str "NaN"; v_list []])])] []]);
+         (5, [VMsg [(1, [v_num 9223372036854775808])] [x08; x01]]);        (* [-0.0], with an unknown field *)
+         (6, [VMsg [(1, [VS (SZ (-9223372036854775808))])] []]);
+         (7, [v_null; v_str ""; VMsg [(5, [VMsg [] []])] []]) ]
+       [].
+
+(* F11: verif.KW{} -- unset explicit-presence Value and NullValue fields (textpb2.KnownTypes{}-like) *)
+Definition ex_kw_empty : value := VMsg [] [].
